@@ -97,6 +97,37 @@ def neardup_deck(rng):
     return d
 
 
+def tiny_coeff_deck(rng):
+    """two or three very large ellipsoids (semi-axes of 50–100 m: coefficients of 1e-8) around one another, and a small
+    sphere: surfaces whose parameters differ only far behind the decimal point are different surfaces all the same"""
+    d = D.Deck()
+    n = rng.randint(2, 3)
+    axes = sorted(rng.sample([5000.0, 6000.0, 7000.0, 8000.0, 10000.0], n))
+    stretch = [rng.choice([1.0, 1.25, 2.0]) for _ in range(3)]
+    for i, a in enumerate(axes):
+        co = [1.0 / (a * s_) ** 2 for s_ in stretch]
+        d.surfs.append(D.Surf(i + 1, 'sq', co + [0.0, 0.0, 0.0, -1.0, 0.0, 0.0, 0.0]))
+    d.surfs.append(D.Surf(n + 1, 'so', [rng.choice([2.0, 3.5])]))
+    cells = [D.Cell(1, ('s', -(n + 1)), mat=1, rho='-1.0'),
+             D.Cell(2, ('i', ('s', n + 1), ('s', -1)), mat=2, rho='-2.0')]
+    for i in range(1, n):
+        cells.append(D.Cell(i + 2, ('i', ('s', i), ('s', -(i + 1))), mat=rng.choice([1, 2]), rho=rng.choice(['-3.0', '-0.5'])))
+    cells.append(D.Cell(n + 2, ('s', n), imp=0))
+    if rng.random() < 0.5:
+        rng.shuffle(cells)
+    d.cells = cells
+    d.mats = {1: [('13027', '1.0')], 2: [('26056', '-0.9'), ('6012', '-0.1')]}
+    pts = []
+    for a in axes + [axes[-1] * 1.5]:
+        for _ in range(6):
+            k = rng.randrange(3)
+            q = [rng.uniform(-50, 50) for _ in range(3)]
+            q[k] = rng.choice([-1, 1]) * 0.5 * (a + (axes[axes.index(a) - 1] if a in axes and axes.index(a) > 0 else 0.0)) * stretch[k]
+            pts.append(q)
+    d.probe_points = pts
+    return d
+
+
 def run_case(stream, seed, ctx, params):
     rng = random.Random(seed)
     if stream == 'options':
@@ -107,9 +138,11 @@ def run_case(stream, seed, ctx, params):
         elif m < 0.8:
             d = U.build_universe_deck(rng, depth=2, macro_p=0.0, tr_p=0.0, fill_tr_p=0.3, trcl_p=0.3, lattice_p=0.6,
                                       lat_tr_p=0.2, lat_trcl_p=0.3)
-        elif m < 0.9:
+        elif m < 0.87:
             from .c08 import coincident_deck
             d = coincident_deck(rng)
+        elif m < 0.94:
+            d = tiny_coeff_deck(rng)
         else:
             d = neardup_deck(rng)
         sets = rng.sample(all_option_sets(), 3)
@@ -133,7 +166,7 @@ def run_case(stream, seed, ctx, params):
         return out
     else:
         m = rng.random()
-        d = (tori_deck(rng) if m < 0.35 else neardup_deck(rng) if m < 0.7
+        d = (tori_deck(rng) if m < 0.3 else neardup_deck(rng) if m < 0.6 else tiny_coeff_deck(rng) if m < 0.75
              else __import__('harness.props.c08', fromlist=['x']).coincident_deck(rng))
         args = [] if rng.random() < 0.75 else ['--skip-deduplication']
         return run_deck(ctx, stream, d, args, rng, npts=200, check_model=True)
